@@ -35,6 +35,7 @@ pub fn seq_cfg(rng: &mut Rng) -> Cfg {
     cfg.cross_kind = rng.chance(1, 2);
     cfg.max_records = 4;
     cfg.max_fields = 6;
+    cfg.odd_padding = rng.chance(1, 3);
     cfg
 }
 
@@ -588,7 +589,36 @@ pub fn run_c06(w: &mut W) {
                         Ok(())
                     })();
                 }
-            } else if k < 15 {
+            } else if k >= 14 && k < 17 {
+                // an IPFIX (options) template record that is complete but not well formed: no field
+                // with a non-zero length (the library's own validity rule). It must not touch the
+                // caches - in particular not the definition it names.
+                let existing: Vec<u16> = exs[pi].ix_t.keys().chain(exs[pi].ix_o.keys()).cloned().collect();
+                let id = if !existing.is_empty() && rng.chance(3, 4) { *rng.pick(&existing) } else { 256 + rng.below(4) as u16 };
+                let nf = rng.usize(4);
+                let fields: Vec<IpfixSpec> = (0..nf).map(|_| IpfixSpec { type_num: *rng.pick(&w.pools.ipfix_known), len: 0, enterprise: None }).collect();
+                let set = if rng.chance(1, 2) {
+                    IpfixSet::Template { records: vec![IpfixTmpl { id, fields }], padding: vec![] }
+                } else {
+                    IpfixSet::OptionsTemplate { records: vec![IpfixOptTmpl { id, scope_count: nf.min(1) as u16, fields }], padding: vec![] }
+                };
+                let mut sets = vec![set];
+                // sometimes a valid data set for a known template precedes it in the same message
+                if rng.chance(1, 3) {
+                    if let Some(t) = exs[pi].ix_t.values().next().cloned() {
+                        sets.insert(0, exs[pi].ipfix_data(&mut rng, &cfg, t.id, false, &t.fields));
+                    }
+                }
+                let msg = IpfixMsg { export_time: rng.b32(), seq: rng.b32(), domain: rng.b32(), sets };
+                sut.parse(pi, &msg.wire());
+                shape.push_str("V;");
+                w.rep.count("noop.invalid_template_record", 1);
+                verdict = if snap(&sut.parsers[pi]) != before[pi] {
+                    Err(div("cache/invalid-template", "changed", format!("caches changed by a template record without any non-zero-length field (id {}): {}", id, snap_diff(&snap(&sut.parsers[pi]), &before[pi]))))
+                } else {
+                    Ok(())
+                };
+            } else if k < 14 {
                 // garbage / hostile data that defines nothing: unknown version or random tail
                 let mut b = vec![];
                 b.extend_from_slice(&(*rng.pick(&[0u16, 1, 6, 8, 11, 255])).to_be_bytes());
